@@ -51,8 +51,9 @@ def worker_main(pid, tier, seed, index, n, outfile):
     monitors.COVERAGE.stop()
     out = ctx.dump()
     out["coverage"] = sorted(monitors.COVERAGE.hit)
+    from .common import tag
     with open(outfile, "w") as f:
-        json.dump(out, f)
+        json.dump(out, f, default=tag)
     return 0
 
 
@@ -209,6 +210,8 @@ def check_main(pid, tier):
     for l in lines:
         print(l)
     if lines:
+        for r in inconclusive:
+            print("NOTE (also inconclusive in part): %s" % r.replace("\n", " | ")[:600])
         return EXIT_VIOLATION
     if inconclusive:
         for r in inconclusive:
